@@ -453,6 +453,26 @@ def parents(rng, bad):
     ]
 
 
+def cancelling_sum_cases(rng, n):
+    """a constrained node over a sum of three or more floating-point terms that cancel: whether the sum is exactly zero (or
+    negative) -- hence whether the node is inside its domain -- is decided by how the additions are carried out; the
+    reference computation adds exactly as the interpreter's sum() does"""
+    import math as _m
+    x, y = ('V', 2), ('V', 3)
+    out = []
+    for _ in range(n):
+        a = rng.choice([1.0, 3.0, 1e16, 0.1, 1e-3, 12345.678, 2.0 ** 60]) * rng.choice([1, -1])
+        tiny = _m.ulp(a) * rng.choice([0.25, 0.4, 0.5, 0.75, 1.0, 1.5]) * rng.choice([1, -1])
+        terms = rng.choice([[x, y, ('Neg', x)], [x, y, ('Neg', x), ('Neg', y)], [y, x, ('Neg', x)], [x, y, y, ('Neg', x)],
+                            [x, ('C', tiny), ('Neg', x)], [('C', a), y, ('C', -a)], [x, y, ('Mul', [('C', -1.0), x])],
+                            [x, y, ('Neg', x), ('Neg', y), ('C', 0.0)], [x, y, y, ('Neg', x), ('Neg', y), ('Neg', y)]])
+        s = ('Add', list(terms))
+        node = rng.choice([('Recip', s), ('Log', s, E), ('Divide', ('C', 1), s), ('NthRoot', s, 2), ('Power', s, ('C', 0.5)),
+                           ('Power', s, ('C', -1)), ('Log', ('Add', [s, ('C', 0.0)]), 2), ('Recip', ('Mul', [s, ('C', 2.0)]))])
+        out.append((node, [(2, a), (3, tiny)]))
+    return out
+
+
 def check_C02(ctx):
     rng, tier = ctx.rng, ctx.tier
     rep = Report('C02')
@@ -478,7 +498,7 @@ def check_C02(ctx):
                 p = [(2, bv_), (3, ev)]
                 i = b.add('EVAL %s %s' % (sx.point_sx(p), sx.to_sx(e_)))
                 meta.append((i, e_))
-    for e_, p in sensitive_parameter_cases() + gen.large_cases(rng, sizes(tier, 30, 300)):
+    for e_, p in sensitive_parameter_cases() + gen.large_cases(rng, sizes(tier, 30, 300)) + cancelling_sum_cases(rng, sizes(tier, 40, 600)):
         i = b.add('EVAL %s %s' % (sx.point_sx(p), sx.to_sx(e_)))
         meta.append((i, e_))
     n = sizes(tier, 300, 8000)
@@ -606,7 +626,31 @@ def bundle_cases(rng, tier, quick, thorough, special=None):
         e_ = rng.choice([t, ('NthPow', t, 3), ('NthPow', t, 9), ('NthPow', t, 4), ('NthPow', t, 15)])
         for xv in (-2, -0.5, 2):
             cases.append((e_, [(2, xv)], 2))
+    cases += variable_free_offender_cases(rng)
     return cases
+
+
+def variable_free_offender_cases(rng):
+    """a sub-expression WITHOUT variables that is outside its domain, at every kind of position: no partial derivative depends
+    on it, so a differentiation rule can skip it, and then that route returns a number where the others raise"""
+    c = lambda v_: ('C', v_)      # noqa: E731
+    x, y = ('V', 2), ('V', 3)
+    bads = [('Log', c(-1), E), ('Log', ('Minus', c(1), c(1)), 2), ('Recip', ('Add', [c(1), c(-1)])), ('Divide', c(1), c(0)),
+            ('NthRoot', c(-4), 2), ('Power', c(-2), c(0.5)), ('Power', c(0), c(-1)), ('Sin', ('Log', c(0), E)),
+            ('NthPow', ('NthRoot', ('Minus', c(2), c(6)), 2), 2), ('Exp', ('Recip', c(0)), 2)]
+    ctxs = [lambda b: ('Minus', x, b), lambda b: ('Minus', b, x), lambda b: ('Add', [x, b]), lambda b: ('Add', [b, x, y]),
+            lambda b: ('Minus', ('Minus', x, b), y), lambda b: ('Add', [y, ('Minus', x, b)]), lambda b: ('Minus', y, ('Add', [x, b])),
+            lambda b: ('Mul', [x, b]), lambda b: ('Mul', [b, x, y]), lambda b: ('Divide', x, b), lambda b: ('Divide', b, x),
+            lambda b: ('Power', x, b), lambda b: ('Power', b, x), lambda b: ('Neg', ('Minus', x, b)),
+            lambda b: ('Add', [x, ('Neg', b)]), lambda b: ('Add', [x, ('Mul', [c(0), b])]), lambda b: ('Sin', ('Minus', x, b)),
+            lambda b: ('Minus', ('Sin', x), ('Minus', c(1), b)), lambda b: ('Add', [('Minus', c(1), b), ('NthPow', x, 2)])]
+    out = []
+    for k_, b in enumerate(bads):
+        for j_, ctx in enumerate(ctxs):
+            if (k_ + j_) % 2 == rng.randrange(2):
+                continue
+            out.append((ctx(b), [(2, 1.5), (3, 0.75)], rng.choice([2, 2, 3])))
+    return out
 
 
 SUBSTRING_NAMES = {2: 2, 3: 22, 4: 222, 5: 3, 6: 32, 7: 223}
@@ -691,6 +735,12 @@ def check_routes(ctx, prop):
         if prop in ('C06',):
             idx['PEXPR'] = b.add('PEXPR %d %s' % (v, sx.to_sx(e)))
             idx['DEXPR'] = b.add('DEXPR %d %s' % (v, sx.to_sx(e)))
+            if k_ % 2 == 0:
+                # "with the variable given as object or as name": the same routes asked with a Variable object
+                for r_ in ('FWD', 'PEARLY', 'DEARLYAT'):
+                    idx['VO' + r_] = b.add('VO %s %d %s %s' % (r_, v, sx.point_sx(p), sx.to_sx(e)))
+                idx['VOPEXPR'] = b.add('VO PEXPR %d %s' % (v, sx.to_sx(e)))
+                idx['VODEXPR'] = b.add('VO DEXPR %d %s' % (v, sx.to_sx(e)))
         if prop == 'C03' and len(sx.var_ids(e)) <= 1 and p:
             idx['DERIVNUM'] = b.add('DERIVNUM %s %s' % (sx.num_sx(p[0][1]), sx.to_sx(e)))
         if prop in ('C06', 'C07', 'C17') and len(sx.var_ids(e)) <= 1:
@@ -702,7 +752,8 @@ def check_routes(ctx, prop):
     b.run()
     kinds = collections.Counter()
     relevant = {'C03': ['FWD', 'DERIV', 'DERIVNUM'], 'C04': ['REV', 'DIFFAT'],
-                'C06': ROUTES[1:] + ['DERIV', 'PEXPR', 'DEXPR'], 'C07': ROUTES, 'C17': ROUTES + ['DERIV']}[prop]
+                'C06': ROUTES[1:] + ['DERIV', 'PEXPR', 'DEXPR', 'VOFWD', 'VOPEARLY', 'VODEARLYAT', 'VOPEXPR', 'VODEXPR'],
+                'C07': ROUTES, 'C17': ROUTES + ['DERIV']}[prop]
     for e, p, v, idx in bundles:
         rep.cases += 1
         supplied = all(k in dict(p) for k in sx.var_ids(e))
@@ -758,7 +809,7 @@ def check_routes(ctx, prop):
         if prop in ('C03', 'C04', 'C06'):
             ref = route_value(b, idx, 'FWD', v)
             routes = {'C03': ['DERIV', 'DERIVNUM'], 'C04': ['REV', 'DIFFAT'],
-                      'C06': ['REV', 'DIFFAT', 'PEARLY', 'DEARLYAT', 'DEARLYALL', 'DERIV']}[prop]
+                      'C06': ['REV', 'DIFFAT', 'PEARLY', 'DEARLYAT', 'DEARLYALL', 'DERIV', 'VOFWD', 'VOPEARLY', 'VODEARLYAT']}[prop]
             for r in routes:
                 if r not in idx:
                     continue
@@ -769,7 +820,7 @@ def check_routes(ctx, prop):
                 o = route_value(b, idx, r, v)
                 if o[0] == 'REJECT':
                     continue
-                early = r in ('PEARLY', 'DEARLYAT', 'DEARLYALL')
+                early = r in ('PEARLY', 'DEARLYAT', 'DEARLYALL', 'VOPEARLY', 'VODEARLYAT')
                 if o[0] != ref[0]:
                     if {o[0], ref[0]} <= {'VAL', 'DOMERR'}:
                         if all_agree and not bad_trace:
